@@ -80,6 +80,11 @@ func (c *Ctx) deepLeaves(fn *ssa.Function, isRead bool) (out []leaf, ok bool, wh
 	datum := func(call *ssa.Call, fr *frame, data ssa.Value, order string) {
 		r := d.resolveAll(data, fr)
 		t := r.v.Type()
+		if k, isK := r.v.(*ssa.Const); isK && k.Value == nil && !isRead {
+			if _, isSl := t.Underlying().(*types.Slice); isSl {
+				return // a nil slice encodes to nothing
+			}
+		}
 		id := d.fieldNameOf(r.v, r.fr)
 		if isRead {
 			p, isPtr := t.Underlying().(*types.Pointer)
@@ -133,9 +138,35 @@ func (c *Ctx) deepLeaves(fn *ssa.Function, isRead bool) (out []leaf, ok bool, wh
 		}
 		addDatum(id, t, order, e)
 	}
+	// the same helper called on mutually exclusive branches (switch arms) is one
+	// wire position: only the first activation is followed
+	firstSite := map[string]*ssa.Call{}
+	skipFrame := map[*frame]bool{}
+	excluded := func(fr *frame) bool {
+		for f := fr; f != nil && f.parent != nil; f = f.parent {
+			if skipFrame[f] {
+				return true
+			}
+			site, isC := f.site.(*ssa.Call)
+			if !isC {
+				continue
+			}
+			key := f.parent.id + "|" + name(f.fn)
+			if first, seen := firstSite[key]; !seen {
+				firstSite[key] = site
+			} else if first != site && exclusiveCalls(first, site) {
+				skipFrame[f] = true
+				return true
+			}
+		}
+		return false
+	}
 	for _, di := range d.order {
 		call, isCall := di.i.(*ssa.Call)
 		if !isCall {
+			continue
+		}
+		if excluded(di.fr) {
 			continue
 		}
 		args := ir.CallArgs(call)
@@ -166,9 +197,34 @@ func (c *Ctx) deepLeaves(fn *ssa.Function, isRead bool) (out []leaf, ok bool, wh
 			}
 			datum(call, di.fr, args[2], order)
 		case (id == "io.ReadFull" || id == "io.ReadAtLeast") && isRead && si == 0:
+			if inLoop(di.fr.fn, call.Block()) {
+				if iv, n, isLit := d.rangeLiteralDeep(args[1], di.fr); isLit && n <= 64 {
+					for k := int64(0); k < n; k++ {
+						d.under(listItem{idx: map[ssa.Value]int64{iv: k}}, func() { c.packedRead(d, call, di.fr, args[1], &out, fail) })
+					}
+					continue
+				}
+			}
 			c.packedRead(d, call, di.fr, args[1], &out, fail)
 		case !isRead && si == 0 && (call.Call.IsInvoke() && call.Call.Method.Name() == "Write" || id == "bytes.Buffer.Write"):
-			segs, okSeq := d.byteSeq(args[1], di.fr, 0)
+			var segs []bseg
+			okSeq := true
+			unrolled := false
+			if inLoop(di.fr.fn, call.Block()) {
+				if iv, n, isLit := d.rangeLiteralDeep(args[1], di.fr); isLit && n <= 64 {
+					unrolled = true
+					for k := int64(0); k < n && okSeq; k++ {
+						d.under(listItem{idx: map[ssa.Value]int64{iv: k}}, func() {
+							part, okP := d.byteSeq(args[1], di.fr, 0)
+							okSeq = okSeq && okP
+							segs = append(segs, part...)
+						})
+					}
+				}
+			}
+			if !unrolled {
+				segs, okSeq = d.byteSeq(args[1], di.fr, 0)
+			}
 			if !okSeq {
 				fail("bytes handed to Write are not built by a modelled idiom")
 				continue
@@ -199,6 +255,29 @@ func (c *Ctx) deepLeaves(fn *ssa.Function, isRead bool) (out []leaf, ok bool, wh
 					}
 				}
 			}
+		case id == "io.LimitReader" && isRead && si == 0:
+			// a bounded view of the stream: the bytes read through it are one variable run
+			n := d.affine(args[1], di.fr, nil, 0)
+			e := &codecEntry{call: call, what: "bytes", width: -1, order: "-", lenAff: &n, lenOf: n.String()}
+			name := "bytes"
+			for _, dj := range d.order {
+				rc, isC := dj.i.(*ssa.Call)
+				if !isC {
+					continue
+				}
+				rid := ir.CallID(rc)
+				if rid != "io.ReadAll" && rid != "bytes.Buffer.ReadFrom" && rid != "io.Copy" && rid != "io.CopyN" {
+					continue
+				}
+				for _, a := range ir.CallArgs(rc) {
+					if d.objectOf(a, dj.fr).same(dval{call, di.fr}) {
+						if f := d.fieldSink(dval{rc, dj.fr}, 0); f != "" {
+							name = f
+						}
+					}
+				}
+			}
+			out = append(out, leaf{id: name, width: -1, order: "-", src: e})
 		case id == "builtin.len" || id == "builtin.cap" || strings.HasSuffix(id, ".Len") || strings.HasSuffix(id, ".Bytes") || strings.HasSuffix(id, ".String"):
 			continue
 		case id == "bytes.Buffer.WriteByte" && !isRead:
@@ -227,6 +306,68 @@ func firstNonEmpty(ss ...string) string {
 	for _, s := range ss {
 		if s != "" {
 			return s
+		}
+	}
+	return ""
+}
+
+// fieldSink follows a value forward to the struct field it is stored in:
+// through tuple extraction, conversions, and returns to the caller's frame.
+func (d *deepView) fieldSink(v dval, depth int) string {
+	if depth > 8 || v.v == nil || v.v.Referrers() == nil {
+		return ""
+	}
+	if id := d.storedInField(v); id != "" {
+		return id
+	}
+	for _, r := range *v.v.Referrers() {
+		switch x := r.(type) {
+		case *ssa.Extract:
+			if x.Index == 0 {
+				if id := d.fieldSink(dval{x, v.fr}, depth+1); id != "" {
+					return id
+				}
+			}
+		case *ssa.Slice:
+			if id := d.fieldSink(dval{x, v.fr}, depth+1); id != "" {
+				return id
+			}
+		case *ssa.Return:
+			if v.fr.site == nil || v.fr.parent == nil {
+				continue
+			}
+			idx := -1
+			for k, res := range x.Results {
+				if res == v.v {
+					idx = k
+				}
+			}
+			site, isVal := v.fr.site.(ssa.Value)
+			if idx < 0 || !isVal {
+				continue
+			}
+			if len(x.Results) == 1 {
+				if id := d.fieldSink(dval{site, v.fr.parent}, depth+1); id != "" {
+					return id
+				}
+				continue
+			}
+			if site.Referrers() != nil {
+				for _, rr := range *site.Referrers() {
+					if ex, ok := rr.(*ssa.Extract); ok && ex.Index == idx {
+						if id := d.fieldSink(dval{ex, v.fr.parent}, depth+1); id != "" {
+							return id
+						}
+					}
+				}
+			}
+		case *ssa.Store:
+			// stored into a local cell: follow its loads
+			if a, ok := x.Addr.(*ssa.Alloc); ok && x.Val == v.v {
+				if id := d.loadedIntoField(a, v.fr); id != "" {
+					return id
+				}
+			}
 		}
 	}
 	return ""
@@ -273,9 +414,10 @@ func (d *deepView) loadedIntoField(a *ssa.Alloc, fr *frame) string {
 
 // packedRead: io.ReadFull(stream, buf) followed by decodes of buf.
 func (c *Ctx) packedRead(d *deepView, call *ssa.Call, fr *frame, bufArg ssa.Value, out *[]leaf, fail func(string)) {
-	b := d.resolve(bufArg, fr)
+	b := d.resolveAll(bufArg, fr)
 	var obj dval
 	total := newAffine()
+	lo := int64(0) // the region of the buffer that is filled: [lo, lo+total)
 	switch x := b.v.(type) {
 	case *ssa.MakeSlice:
 		obj, total = b, d.affine(x.Len, b.fr, nil, 0)
@@ -285,11 +427,35 @@ func (c *Ctx) packedRead(d *deepView, call *ssa.Call, fr *frame, bufArg ssa.Valu
 		if isA {
 			n, okLen = byteLen(a)
 		}
-		if !isA || x.Low != nil || x.High != nil || !okLen {
-			fail("io.ReadFull into a buffer that is not a whole local array or make")
+		if !isA || !okLen {
+			// a re-slice of a made buffer: buf[:n]
+			if base := d.resolve(x.X, b.fr); x.Low == nil && x.High != nil {
+				if _, isMk := base.v.(*ssa.MakeSlice); isMk {
+					obj, total = base, d.affine(x.High, b.fr, nil, 0)
+					break
+				}
+			}
+			fail("io.ReadFull into a buffer that is not a local array or make")
 			return
 		}
-		obj, total = dval{a, b.fr}, constAffine(n)
+		hi := n
+		if x.Low != nil {
+			k, isK := d.indexOf(x.Low)
+			if !isK {
+				fail("io.ReadFull into a region with a variable start")
+				return
+			}
+			lo = k
+		}
+		if x.High != nil {
+			k, isK := d.indexOf(x.High)
+			if !isK {
+				fail("io.ReadFull into a region with a variable end")
+				return
+			}
+			hi = k
+		}
+		obj, total = dval{a, b.fr}, constAffine(hi-lo)
 	default:
 		fail("io.ReadFull into a buffer the evaluator cannot resolve")
 		return
@@ -356,10 +522,11 @@ func (c *Ctx) packedRead(d *deepView, call *ssa.Call, fr *frame, bufArg ssa.Valu
 		}
 	}
 	sort.SliceStable(decs, func(i, j int) bool { return decs[i].off < decs[j].off })
-	pos := int64(0)
+	pos := lo
+	end := lo + total.K
 	for _, dc := range decs {
-		if dc.off < pos {
-			continue // an overlapping second look at the same bytes
+		if dc.off < pos || dc.off >= end {
+			continue // outside this region, or an overlapping second look at the same bytes
 		}
 		if dc.off > pos {
 			*out = append(*out, leaf{id: "(skipped)", width: int(dc.off - pos), order: "-"})
@@ -367,7 +534,7 @@ func (c *Ctx) packedRead(d *deepView, call *ssa.Call, fr *frame, bufArg ssa.Valu
 		*out = append(*out, leaf{id: dc.id, width: dc.width, order: dc.order})
 		pos = dc.off + int64(dc.width)
 	}
-	if pos < total.K {
-		*out = append(*out, leaf{id: "(skipped)", width: int(total.K - pos), order: "-"})
+	if pos < end {
+		*out = append(*out, leaf{id: "(skipped)", width: int(end - pos), order: "-"})
 	}
 }
